@@ -173,7 +173,13 @@ Definition proc_write_done (d : dm) : bool * dm :=
             | Some _ => (true, upd d' (d_next_id d') (d_active d') (d_req d') (d_next_read d') (d_next_write d')
                                    (d_pread d') (adel r (d_pwrite d')) (d_buf d'))
             end
-        | _ => (false, d)
+        | MData _ _ :: rest =>
+            (* not a write-done: left for processDataReadyFromSrc when both sides share the port,
+               otherwise an orphan that is dropped *)
+            if negb (d_sside d =? d_dside d)
+            then (true, with_port d (d_dside d) (mk_port rest (p_out p) (p_cap p)))
+            else (false, d)
+        | [] => (false, d)
         end
     end.
 
@@ -228,7 +234,11 @@ Definition proc_data_ready (d : dm) : outcome (bool * dm) :=
                 | Blowup => Blowup
                 end
             end
-        | _ => Ret (false, d)
+        | MDone _ :: rest =>
+            if negb (d_sside d =? d_dside d)
+            then Ret (true, with_port d (d_sside d) (mk_port rest (p_out p) (p_cap p)))
+            else Ret (false, d)
+        | [] => Ret (false, d)
         end
     end.
 
@@ -309,8 +319,17 @@ Definition serve (side : N) (e : env) (k : nat) : env :=
       else e
   end.
 
+(** a response nobody asked for (unknown RspTo), delivered if the port has room *)
+Definition stray (side : N) (e : env) (x : mrsp) : env :=
+  let p := if side =? 0 then d_inside (e_dm e) else d_outside (e_dm e) in
+  if N.of_nat (length (p_in p)) <? p_cap p
+  then mk_env (with_port (e_dm e) side (mk_port (p_in p ++ [x]) (p_out p) (p_cap p)))
+              (e_mem_in e) (e_mem_out e) (e_pend_in e) (e_pend_out e)
+  else e.
+
 Record instant := mk_instant {
   i_top : list move; i_serve_in : list nat; i_serve_out : list nat;
+  i_stray_in : list mrsp; i_stray_out : list mrsp;
   i_drain_top : nat; i_drain_in : nat; i_drain_out : nat }.
 
 Definition deliver_top (d : dm) (vs : list move) : dm :=
@@ -329,7 +348,8 @@ Definition env_step (e : env) (i : instant) : outcome (env * tick_obs) :=
   let d0 := deliver_top (e_dm e) (i_top i) in
   let ntop := (length (d_top_in d0) - length (d_top_in (e_dm e)))%nat in
   let e1 := fold_left (serve 0) (i_serve_in i) (mk_env d0 (e_mem_in e) (e_mem_out e) (e_pend_in e) (e_pend_out e)) in
-  let e2 := fold_left (serve 1) (i_serve_out i) e1 in
+  let e2a := fold_left (serve 1) (i_serve_out i) e1 in
+  let e2 := fold_left (stray 1) (i_stray_out i) (fold_left (stray 0) (i_stray_in i) e2a) in
   bind (tick (e_dm e2)) (fun '(p, d1) =>
     let pi := d_inside d1 in let po := d_outside d1 in
     let d2 := mk_dm (d_bufsize d1) (d_gin d1) (d_gout d1) (d_next_id d1) (d_active d1) (d_req d1) (d_next_read d1) (d_next_write d1)
